@@ -335,6 +335,7 @@ func (b *BloomSearchEngine) Stop(ctx context.Context) error {
 		close(done)
 	}()
 
+	verifPoint("stop.waiting", 0, 0, nil)
 	select {
 	case <-done:
 		// Workers finished gracefully
